@@ -728,12 +728,20 @@ func genC08(r *simrt.Rand, tier string) any {
 	at := 0
 	ro := !sc.Pol.ReadOnly
 	for a := 0; a < na; a++ {
-		at += []int{0, 100, 3000, 60000}[r.Int(4)]
+		at += []int{0, 100, 3000, 60000, 700000}[r.Int(5)]
 		sc.Admin = append(sc.Admin, C16Admin{AtUs: at, Pol: PolSpec{ReadOnly: ro}})
 		ro = !ro
 	}
 	if r.Pct(50) {
-		sc.Stalls = append(sc.Stalls, simfs.Fault{Op: []string{"Lstat", "OpenFile", "File.WriteAt", "Create", "Stat"}[r.Int(5)], Nth: 1 + r.Int(8), Kind: "stall", Stall: time.Duration([]int{5, 300, 2000}[r.Int(3)]) * time.Millisecond})
+		sc.Stalls = append(sc.Stalls, simfs.Fault{Op: []string{"Lstat", "OpenFile", "File.WriteAt", "Create", "Stat"}[r.Int(5)], Nth: 1 + r.Int(8), Kind: "stall", Stall: time.Duration([]int{5, 300, 2000, 6000}[r.Int(4)]) * time.Millisecond})
+	}
+	if r.Pct(25) {
+		// a request that outlives its time-out (500 ms) inside a mutating procedure, with the switch to
+		// read-only issued after the time-out but before the backend call returns
+		sc.TimeoutMs = 500
+		sc.Pol.ReadOnly = false
+		sc.Stalls = []simfs.Fault{{Op: []string{"Lstat", "Stat", "OpenFile"}[r.Int(3)], Nth: 1 + r.Int(6), Kind: "stall", Stall: time.Duration([]int{2000, 6000}[r.Int(2)]) * time.Millisecond}}
+		sc.Admin = []C16Admin{{AtUs: []int{600000, 900000, 1500000}[r.Int(3)], Pol: PolSpec{ReadOnly: true}}}
 	}
 	return sc
 }
